@@ -42,7 +42,7 @@ RULE = ("Hypothesis cases {program, order, labels, compact, outer, unroll, obser
         "Oracle: plot_circuit (Agg) must not raise; the description it actually hands to plot_circuit_description is "
         "captured and must show rows = requested order + each remaining occupied id once, labels of mapped channels = the "
         "mapped string, width = max(1, latest end) + 1 and figure size to match, and the multiset of (left edge x, rows) "
-        "of its draw components = multiset of (start, rows of the qubits) over the drawable operations, times from the "
+        "of its draw components = multiset of (start, rows of the qubits) over the drawable operations (an operation on no qubit, e.g. a barrier over an empty list, has no row and no component), times from the "
         "reference model (relations as built, durations = the drawing's; library part: times a never-plotted twin reports "
         "under the drawing's durations) - two-qubit gates sharing a start time may be off by <= duration/4; fingerprint "
         "(listing signatures, times, duration, acquisition indices) under the outer durations identical before/after and "
@@ -67,7 +67,7 @@ ASSUMPTIONS = [
 # generation
 # ------------------------------------------------------------------------------------------------------------------
 def cfg(kinds):
-    return P.GenCfg(kinds=list(kinds), nq=4, max_items=7, min_items=1, max_depth=2, p_sub=22, p_rel=35, max_reps=3,
+    return P.GenCfg(kinds=list(kinds), empty_barrier=True, nq=4, max_items=7, min_items=1, max_depth=2, p_sub=22, p_rel=35, max_reps=3,
                     globals_=False, max_total_leaves=40)
 
 
@@ -578,6 +578,8 @@ def check_placement(ctx, description, components, expected, facts):
     for it, s, e in expected:
         if any(q not in pos for q in it["q"]):
             continue          # reported by row-set
+        if not it["q"]:
+            continue          # an operation on no qubit (barrier over an empty list) has no row: nothing to draw
         entry = {"x": s, "rows": tuple(sorted(pos[q] for q in it["q"])), "k": it["k"], "dur": e - s,
                  "tol": (e - s) / 4.0 if (it["k"] in DRAWN_2Q and starts_2q.get(round(s, 9), 0) >= 2) else 0.0,
                  "cls": DRAWN_2Q.get(it["k"])}       # the two drawn two-qubit kinds are told apart by their component
